@@ -92,6 +92,15 @@ LeftSpine(X, k) == IF k = 0 THEN X ELSE
 RightSpine(X, k) == IF k = 0 THEN X ELSE
   LET S == RightSpine(X, k - 1) IN S \cup {t \in UNION {RightOps(s) : s \in S} : OK(t)}
 
+(* random composition of the same node classes to depth 3 (thorough tier; TLC's RandomElement, seeded by -seed) *)
+RECURSIVE RandTree(_, _)
+RandTree(d, p) ==
+  IF d = 0 THEN (IF RandomElement(1..6) = 1 THEN RandomElement(SpecialLeaves) ELSE Id(p))
+  ELSE LET x == RandTree(RandomElement(0..(d - 1)), p \o "0")
+           y == RandTree(RandomElement(0..(d - 1)), p \o "1")
+       IN RandomElement(Ops1(x) \cup Ops2(x, y))
+RandTrees(n) == {t \in {RandTree(3, "a") : i \in 1..n} : OK(t) /\ Depth(t) >= 2}
+
 (* hazard leaf -> the skeletons whose start restriction concerns it *)
 StartPairs ==
   {<<x, n>> : x \in {<<"obj0">>, <<"obj", Id("a")>>}, n \in {"exprstmt", "arrowbody", "label"}}
@@ -217,10 +226,11 @@ CasesOf(Family_) ==
              \cup On(RightSpine(InLeaves, Size), {"forinit", "forvarinit", "forletinit", "exprstmt"})
              \cup On(GlueTrees(Size), {"exprstmt"})
              \cup On(LinkChain({Id("a")}, Size), {"exprstmt"}))
+    [] Family = "rand" -> Adm(On(RandTrees(Size), {"exprstmt"}))
     [] Family = "skel" ->
          Adm(On(T1("a") \cup SpecialLeaves \cup (IF Size >= 2 THEN Mk1(SpecialLeaves) ELSE {}), SkelNames))
 
-ASSUME Family \in {"expr", "spine", "skel"}
+ASSUME Family \in {"expr", "spine", "skel", "rand"}
 
 CaseCtx(c) == Skel(c.sk).ctx
 Toks(c, body) ==
@@ -300,6 +310,7 @@ Required ==
           "forof-async", "forinit-in", "glue-minus", "glue-plus", "glue-div-regexp", "glue-regexp-keyword",
           "glue-lt-bang", "glue-dashdash-gt", "glue-html-comment-open", "new-callee-call", "new-callee-optchain",
           "optchain-paren", "optchain-tag", "new-noargs-member", "glue-num-dot"}
+    [] Family = "rand" -> {}
     [] Family = "skel" ->
          {"paren-comma", "paren-assign", "paren-arrow", "forinit-in", "start-brace", "start-function", "start-class",
           "forof-async", "forof-let", "paren-cond", "paren-binary", "paren-unary"}
